@@ -26,7 +26,7 @@ func init() { core.Register(&area{}) }
 func (a *area) Name() string { return "query" }
 
 // number of dedicated deterministic cases (witnesses of the recorded findings and fixed shapes)
-const nFixed = 23
+const nFixed = 25
 
 func (a *area) Run(c *core.Ctx) error {
 	if c.Args["lindb-log"] != "" {
@@ -54,6 +54,7 @@ func (a *area) Run(c *core.Ctx) error {
 			} else {
 				// every 9th later case (and more with -arg region=container-boundary-multi-field, the
 				// bias of the violation search) lies in the region container-boundary-multi-field
+				sparseCase = i%9 == 3 || (c.Args["region"] == "sparse-series-filter" && i%3 != 0)
 				runRandom(c, i, i%9 == 7 || (c.Args["region"] == "container-boundary-multi-field" && i%3 != 0))
 			}
 		}()
@@ -513,8 +514,13 @@ func pickBoundaryIDs(rng *rand.Rand, n int) []uint32 {
 	}
 }
 
+// sparseCase: the next random case lies in the region sparse-series-filter (set by Run; cases run
+// one after another).
+var sparseCase bool
+
 func runRandom(c *core.Ctx, idx int, boundary bool) {
 	rng := c.Rng(idx)
+	sparse := sparseCase && !boundary
 	ivMs := intervals[rng.Intn(len(intervals))]
 	r, err := newRunOpt(c, ivMs, boundary)
 	if err != nil {
@@ -599,6 +605,38 @@ func runRandom(c *core.Ctx, idx int, boundary bool) {
 			nOps += 10
 		}
 	}
+	// region sparse-series-filter: 5..9 series (ids in the order of their first rows), every memory
+	// database receives rows of a random subset only (re-drawn at every flush of the family), so the
+	// storage units hold different subsets; most queries carry a tag condition
+	var srng *rand.Rand
+	famSubset := map[int][]seriesDef{}
+	if sparse {
+		c.Branch("gen/region:sparse-series-filter")
+		srng = rand.New(rand.NewSource(rng.Int63()))
+		target := 5 + srng.Intn(5)
+		for len(sdefs) < target {
+			a, b := 1+srng.Intn(3), 1+srng.Intn(3)
+			if seen[[2]int{a, b}] {
+				continue
+			}
+			seen[[2]int{a, b}] = true
+			sdefs = append(sdefs, seriesDef{id: len(sdefs) + 1, tags: map[int]int{1: a, 2: b}})
+		}
+		wT, fT, cT = 62, 78, 83
+		if nOps < 20 {
+			nOps += 12
+		}
+	}
+	pickSeries := func(fam int) seriesDef {
+		if !sparse {
+			return sdefs[rng.Intn(len(sdefs))]
+		}
+		if famSubset[fam] == nil {
+			famSubset[fam] = sparseSubset(srng, sdefs)
+		}
+		sub := famSubset[fam]
+		return sub[srng.Intn(len(sub))]
+	}
 	// a "hot" region of slots so that duplicates and window effects are frequent
 	hot := rng.Intn(spf)
 	// two hot regions more than a window apart: writes flip between them, so windows are left,
@@ -620,8 +658,23 @@ func runRandom(c *core.Ctx, idx int, boundary bool) {
 		}
 	}
 	queries := 0
+	inWindow := false
 	doQuery := func() {
 		q := genQuery(rng, r, flds, useHist, famChoices)
+		if sparse && q.cond.kind == "all" && srng.Intn(2) == 0 {
+			q.cond = genCond(srng, 1)
+		}
+		// one query in eight (own commutative aggregates only): a family's flush runs to completion
+		// between the query's filtering and its loading
+		if !inWindow && placementFree(q) && rng.Intn(8) == 0 {
+			fam := pick(rng, famChoices)
+			r.queryFlushBeforeLoad(q, fam)
+			if sparse {
+				famSubset[fam] = nil
+			}
+			queries++
+			return
+		}
 		r.query(q)
 		queries++
 	}
@@ -630,7 +683,7 @@ func runRandom(c *core.Ctx, idx int, boundary bool) {
 		switch {
 		case x < wT:
 			fam := pick(rng, famChoices)
-			s := sdefs[rng.Intn(len(sdefs))]
+			s := pickSeries(fam)
 			slot := slotOf()
 			// fields of this row
 			var fvs []fieldVal
@@ -684,7 +737,12 @@ func runRandom(c *core.Ctx, idx int, boundary bool) {
 				if rng.Intn(4) == 0 {
 					window = r.flushFail
 				}
+				if sparse {
+					famSubset[fam] = nil
+				}
 				window(fam, func() {
+					inWindow = true
+					defer func() { inWindow = false }()
 					for k := 0; k < nw; k++ {
 						wf := fam
 						if rng.Intn(4) == 0 {
@@ -693,7 +751,7 @@ func runRandom(c *core.Ctx, idx int, boundary bool) {
 						if wf != fam && r.sh.fam(wf).mem == nil && false {
 							continue
 						}
-						s := sdefs[rng.Intn(len(sdefs))]
+						s := pickSeries(wf)
 						slot := slotOf()
 						f := flds[rng.Intn(len(flds))]
 						if !commutative(aggOfFieldType(schema[f].ftype)) && r.sh.flushedCell[cellKey{wf, s.id, f, slot}] {
@@ -709,6 +767,9 @@ func runRandom(c *core.Ctx, idx int, boundary bool) {
 				})
 			} else {
 				r.flush(fam)
+				if sparse {
+					famSubset[fam] = nil
+				}
 			}
 		case x < cT:
 			r.compact(pick(rng, famChoices))
